@@ -59,7 +59,7 @@ def main():
                     print("\n".join("      " + l for l in out.splitlines()[-8:]))
     if "--benign" in sys.argv:
         allprops = sorted(os.path.basename(f)[:-3] for f in glob.glob(VERIF + "/rules/C[0-9][0-9].py"))
-        for diff in sorted(glob.glob(VERIF + "/selftest/benign/*.diff")):
+        for diff in sorted(glob.glob(os.environ.get("BENIGN_GLOB") or (VERIF + "/selftest/benign/*.diff"))):
             fresh_copy()
             r = sh("cd %s/repo && patch -p1 --no-backup-if-mismatch < %s" % (SCRATCH, diff))
             if r.returncode:
